@@ -252,6 +252,33 @@ def run(tier: str) -> int:
 
     for k, v in probes.access_probes() + probes.range_probes()[::6] + probes.call_matrix()[::9]:
         progs.append((f"probe:{k}", v, None))
+    # source comments that name other functions on jump / branch lines (labels are substituted over the
+    # whole line): callee names sorted before and after the function that holds the jump
+    progs.append(("fixed:comment_names", HDR + """
+def check(v):
+    return v * 2
+
+def zcheck(v):
+    return v + 1
+
+def run(v):
+    if check(v) > 2:
+        db.Setting = 1
+    else:
+        db.Setting = 2
+    c = 0
+    while check(c) < v:
+        c += 1
+        if zcheck(c) > 4:
+            break
+    db.Mode = c + check(1)
+    for i in range(zcheck(1)):
+        db.On = check(i)
+
+run(d0.Setting)
+run(3)
+db.Open = zcheck(1) + check(2)
+""", None))
     progs.append(("multi:fixed", c13.FIXED_MULTI, None))
     progs.append(("multi:early_return", {"": HDR + "from library import mylib\n\ndef clamp(x):\n    if x > 9:\n        return 9\n    return x\n\ndb.Setting = mylib.clamp(d0.Setting)\ndb.Mode = mylib.clamp(d1.Setting)\ndb.On = clamp(d2.Setting)\ndb.Open = clamp(3)\n",
                                           "mylib": HDR + "\ndef clamp(x):\n    if x > 5:\n        return 5\n    if x < 0:\n        return 0\n    return x\n"}, "component"))
